@@ -503,3 +503,7 @@ def run(ctx):
     ctx.guard(r11_4)
     ctx.guard(r11_5)
     ctx.guard(r11_6)
+    # "equal, at every point, the prescribed quantities": the fields are functions of (t, y_aug, v) -- nothing is kept on the
+    # AdjointSDE object from one evaluation to the next (rule of C13: no attribute store outside constructors)
+    from . import c13
+    ctx.guard(c13.r13_1)
